@@ -347,6 +347,41 @@ def register(reg):
         )
     )
 
+    # ---------------------------------------------------------------- replay header
+    @reg.spec
+    def u32_at(D, p):
+        p = tonum(p)
+        return SV(z3.Select(D, p) + 256 * z3.Select(D, p + 1) + 65536 * z3.Select(D, p + 2) + 16777216 * z3.Select(D, p + 3))
+
+    reg.add(
+        C.Contract(
+            f"{M}:Serializer.writeReplayHeader",
+            params=dict(self=serializer_type(C.Stream(at_end=True)), flags=C.Int(lo=0, hi=2**32 - 1)),
+            inline=["Serializer.replayFormatVersion"],
+            ensures={
+                "layout": "u16_at(self.stream.data, old(self.stream.pos)) == 2 and u32_at(self.stream.data, old(self.stream.pos) + 2) == flags",
+                "advance": "self.stream.pos == old(self.stream.pos) + 6",
+                "prefix_kept": "same_prefix(self.stream.data, old(self.stream.data), old(self.stream.pos))",
+            },
+            properties=("C18",),
+        )
+    )
+    reg.add(
+        C.Contract(
+            f"{M}:Serializer.readReplayHeader",
+            params=dict(self=serializer_type(C.Stream())),
+            inline=["Serializer.replayFormatVersion"],
+            raises=[C.Raises("SerializationError", mode="may")],
+            ensures={
+                # a replay of another format version or a truncated header is refused
+                "version_checked": "old(self.stream.length) - old(self.stream.pos) >= 6 and u16_at(old(self.stream.data), old(self.stream.pos)) == 2",
+                "flags_decoded": "result == u32_at(old(self.stream.data), old(self.stream.pos) + 2)",
+                "consumed": "self.stream.pos == old(self.stream.pos) + 6",
+            },
+            properties=("C18",),
+        )
+    )
+
 
 # -------------------------------------------------------------------------------------------------
 # replay drivers: model -> real objects -> real call -> executable form of the clause
